@@ -45,6 +45,35 @@ def grid(T: float, fine: Any) -> List[List[Any]]:
     return [pts[k] for k in sorted(pts)]
 
 
+CB_EXCS = ["RuntimeError", "TimeoutError", "asyncio.TimeoutError", "KeyError", "ConnectionError", "anyio.EndOfStream",
+           "anyio.ClosedResourceError", "anyio.WouldBlock", "StopAsyncIteration", "library.CancelledError",
+           "library.RetryableError", "ValidationError-like", "str-raises"]
+
+
+def _cb_exception(name: str) -> BaseException:
+    """What a failing progress callback raises: any Exception the user's code can run into."""
+    import asyncio
+
+    if name == "library.CancelledError":
+        from chuk_mcp.protocol.messages.send_message import CancelledError
+        return CancelledError("callback gave up")
+    if name == "library.RetryableError":
+        from chuk_mcp.protocol.types.errors import RetryableError
+        return RetryableError("callback failed", -32000)
+    if name == "ValidationError-like":
+        return ValueError("1 validation error for X\nfield required")
+    if name == "str-raises":
+        class _Unprintable(Exception):
+            def __str__(self):
+                raise RuntimeError("no text")
+        return _Unprintable()
+    table = {"RuntimeError": RuntimeError, "TimeoutError": TimeoutError, "asyncio.TimeoutError": asyncio.TimeoutError,
+             "KeyError": KeyError, "ConnectionError": ConnectionError, "anyio.EndOfStream": anyio.EndOfStream,
+             "anyio.ClosedResourceError": anyio.ClosedResourceError, "anyio.WouldBlock": anyio.WouldBlock,
+             "StopAsyncIteration": StopAsyncIteration}
+    return table[name]("callback failed") if name not in ("anyio.EndOfStream", "anyio.ClosedResourceError", "anyio.WouldBlock") else table[name]()
+
+
 def run_one(ctl: explorer.Ctl, cfg: Dict[str, Any]) -> Dict[str, Any]:
     from chuk_mcp.protocol.messages.json_rpc_message import parse_message
     from chuk_mcp.protocol.messages.send_message import (CancellationToken, CancelledError, send_message)
@@ -84,7 +113,7 @@ def run_one(ctl: explorer.Ctl, cfg: Dict[str, Any]) -> Dict[str, Any]:
             i = len(cb_calls)
             cb_calls.append([progress, total, message])
             if raise_at is not None and i == raise_at:
-                raise RuntimeError("callback failed")
+                raise _cb_exception(cfg.get("cb_exc", "RuntimeError"))
 
         def wire_token():
             """The progress token as it actually went out on the wire (read from the written request)."""
@@ -540,6 +569,28 @@ def configs_for(tier: str):
                                 cfg.update(response=None, cancel=None)
                             g.append(cfg)
     parts["progress-streams"] = g
+    # (2b) what the failing callback raises: every class x position x ending, on a stream of three matching notifications
+    g = []
+    for exc in CB_EXCS:
+        for ra in (0, 1, 2):
+            for end in ("response", "timeout", "cancel"):
+                cfg = {"T": 1.2, "traffic": "none", "progress": [["M", 0.1], ["M", 0.3], ["M", 0.6]], "cb": True,
+                       "cb_raise_at": ra, "cb_exc": exc}
+                if end == "response":
+                    cfg.update(response=[0.8, 0], cancel=None)
+                elif end == "cancel":
+                    cfg.update(response=None, cancel=[0.7, 0])
+                else:
+                    cfg.update(response=None, cancel=None)
+                g.append(cfg)
+    parts["progress-callback-exception-classes"] = g
+    # (1b) long timeouts: the polling interval (and so the cancel latency) must not grow with the timeout
+    g = []
+    for T in (30.0, 60.0, 61.0, 120.0, 480.0, 3600.0):
+        for c in ([0.1, 0], [0.7, 0], [7.3, 0], [T / 2, 0], [T - 0.2, 0], None):
+            for r in (None, [c[0] + 0.3, 0] if c else [5.0, 0], [T - 0.1, 0]):
+                g.append({"T": T, "traffic": "none", "cancel": c, "response": r})
+    parts["long-timeouts"] = g
     # (3) no token at all (deadline only) under each traffic
     g = []
     for T in (0.3, 1.0, 1.2):
